@@ -691,7 +691,10 @@ class CSemantics:
     def on_number(self, value, location):
         """React on integer numeric literal"""
         # Get value from string:
-        value, type_specifiers = utils.cnum(value)
+        try:
+            value, type_specifiers = utils.cnum(value)
+        except ValueError:
+            self.error(f"Invalid integer constant {value}", location)
 
         assert isinstance(value, int)
         if type_specifiers:
@@ -731,7 +734,10 @@ class CSemantics:
 
     def on_float(self, value, location):
         """Process floating point literal."""
-        value, type_specifiers = utils.float_num(value)
+        try:
+            value, type_specifiers = utils.float_num(value)
+        except ValueError:
+            self.error(f"Invalid floating constant {value}", location)
         typ = self.get_type(type_specifiers)
         return expressions.NumericLiteral(value, typ, location)
 
